@@ -55,6 +55,15 @@ func Merge(old, defs RuleSet) RuleSet {
 	return n
 }
 
+// Remove deletes exactly the named rules (absent names are ignored).
+func Remove(old RuleSet, names []string) RuleSet {
+	n := old.Clone()
+	for _, k := range names {
+		delete(n, k)
+	}
+	return n
+}
+
 // String renders a set deterministically.
 func (s RuleSet) String() string {
 	out := "{"
